@@ -57,7 +57,7 @@ THEOREMS = [('NoteSeqVerif.Props.C17', 'NSV.C17.' + t) for t in (
     'heap_untouched deepcopy_independent deepcopy_independent_classes heap_inv_reachable '
     'melody_heap_in_range perf_heap_inv_reachable '
     # lead sheets as references to Melody / ChordProgression objects
-    'store_wf_reachable lead_deepcopy_independent lead_private_untouched '
+    'store_wf_reachable lead_copy_is_private lead_deepcopy_independent lead_private_untouched '
     'lead_store_inv_reachable').split()]
 
 SIMPLE = ('simple', 'melody', 'drum', 'chord')
